@@ -13,19 +13,18 @@ NParts == atoi(IOEnv.VERIF_NPARTS)
 Mine(i) == i % NParts = Part
 
 Pairs == SetToSeq(RandomSubset(NParam, (1..NKinds) \X (1..NKinds)))
-Entries == T([i \in 1..Len(FixedModels) |-> [m |-> FixedModels[i], pa |-> 0, pb |-> 0, fixed |-> TRUE]])
-           \o T([i \in 1..Len(Pairs) |-> [m |-> ParamModel(Pairs[i][1], Pairs[i][2]), pa |-> Pairs[i][1], pb |-> Pairs[i][2], fixed |-> FALSE]])
+EntriesOf(pairs) ==
+    T([i \in 1..Len(FixedModels) |-> [m |-> FixedModels[i], pa |-> 0, pb |-> 0, fixed |-> TRUE]])
+    \o T([i \in 1..Len(pairs) |-> [m |-> ParamModel(pairs[i][1], pairs[i][2]), pa |-> pairs[i][1], pb |-> pairs[i][2], fixed |-> FALSE]])
 
 Raw(m) == [id |-> m.id, root |-> m.root, enums |-> m.enums, classes |-> m.classes]
-ModelsOut == T([i \in 1..Len(Entries) |-> [mi |-> i, pa |-> Entries[i].pa, pb |-> Entries[i].pb, raw |-> Raw(Entries[i].m),
-                                           wire |-> [n \in ClassNames(Entries[i].m) |-> [mt |-> Entries[i].m.info[n].mt, tag |-> Entries[i].m.info[n].tag,
-                                                        visit |-> Entries[i].m.info[n].visit, transform |-> Entries[i].m.info[n].transform,
-                                                        keys |-> T([q \in 1..Len(AllProps(Entries[i].m, n)) |-> AllProps(Entries[i].m, n)[q].key])]]]])
+ModelOut(e, i) == [mi |-> i, pa |-> e.pa, pb |-> e.pb, raw |-> Raw(e.m)]
+ModelsOut(es) == T([i \in 1..Len(es) |-> ModelOut(es[i], i)])
 
 InstOut(e, i, xs) == T([q \in 1..Len(xs) |-> [mi |-> i, pa |-> e.pa, pb |-> e.pb, x |-> xs[q], xexp |-> ToX(e.m, xs[q]), xmlok |-> XmlRepresentable(e.m, xs[q])]])
 \* boundary values everywhere down to RichDepth, plain values down to BaseDepth (deeper nesting)
 RootsOf(e) == IF e.fixed THEN Roots(e.m, RichDepth, "rich") \cup Roots(e.m, BaseDepth, "base") ELSE Roots(e.m, ParamDepth, "base")
-InstancesOut == Flat(T([i \in 1..Len(Entries) |-> IF Mine(i) THEN InstOut(Entries[i], i, SetToSeq(RootsOf(Entries[i]))) ELSE <<>>]))
+InstancesOut(es) == Flat(T([i \in 1..Len(es) |-> IF Mine(i) THEN InstOut(es[i], i, SetToSeq(RootsOf(es[i]))) ELSE <<>>]))
 
 \* the instances whose serializations are mutated
 MutInstances(m) ==
@@ -34,12 +33,12 @@ MutOf1(e, i, x, fmt, ms) == T([q \in 1..Len(ms) |-> [mi |-> i, pa |-> e.pa, pb |
 MutOf(e, i, x) == MutOf1(e, i, x, "json", JRootMutants(e.m, ToJ(e.m, x), e.m.root)) \o MutOf1(e, i, x, "xml", XRootMutants(e.m, ToX(e.m, x), x.cls))
 MutSeq(e, i, xs) == Flat(T([q \in 1..Len(xs) |-> MutOf(e, i, xs[q])]))
 \* the same mutated document may arise from several instances / positions: keep one of each
-MutantsOut == SetToSeq(RangeOf(Flat(T([i \in 1..Len(Entries) |-> IF Mine(i) THEN MutSeq(Entries[i], i, SetToSeq(MutInstances(Entries[i].m))) ELSE <<>>]))))
+MutantsOut(es) == SetToSeq(ToSet(Flat(T([i \in 1..Len(es) |-> IF Mine(i) THEN MutSeq(es[i], i, SetToSeq(MutInstances(es[i].m))) ELSE <<>>]))))
 
 Out(what, path, v) == JsonSerialize(path, v) /\ PrintT(<<"@@PRINT@@ " \o what, Len(v)>>)
-ASSUME Out("models", IOEnv.VERIF_OUT_MODELS, ModelsOut)
-ASSUME Out("instances", IOEnv.VERIF_OUT_INSTANCES, InstancesOut)
-ASSUME Out("mutants", IOEnv.VERIF_OUT_MUTANTS, MutantsOut)
+\* (the entries are evaluated once and threaded through: a second evaluation would draw another random sample)
+Emit(es) == Out("models", IOEnv.VERIF_OUT_MODELS, ModelsOut(es)) /\ Out("instances", IOEnv.VERIF_OUT_INSTANCES, InstancesOut(es)) /\ Out("mutants", IOEnv.VERIF_OUT_MUTANTS, MutantsOut(es))
+ASSUME Emit(EntriesOf(Pairs))
 VARIABLE dummy
 Init == dummy = 0
 Next == UNCHANGED dummy
